@@ -1716,3 +1716,29 @@ theorem timeout_of_waiting (H : List UInt8 → List UInt8) (st : St) (hr : st.r.
   simp [step, hr, hs, hp, Recv.terminate, Send.terminate]
 
 end Qx.C19
+
+namespace Qx.C19
+
+/-! ### accept(filePath): what is left of the previous file content never changes after the open -/
+
+@[simp] theorem Recv.terminate_old (r : Recv) (c : JError) : (r.terminate c).old = r.old := by
+  unfold Recv.terminate; split <;> rfl
+@[simp] theorem Recv.checkData_old (H : List UInt8 → List UInt8) (r : Recv) : (r.checkData H).old = r.old := by
+  unfold Recv.checkData; split <;> simp
+@[simp] theorem Recv.write_old (r : Recv) (pl : List UInt8) : (r.write pl).old = r.old := by
+  unfold Recv.write; split <;> (try split) <;> simp
+
+theorem recv_old (H : List UInt8 → List UInt8) (r : Recv) (p : Stanza) : (recv H r p).1.old = r.old := by
+  unfold recv
+  split
+  · rfl
+  · split
+    · simp
+    · split
+      · rfl
+      · split
+        · rfl
+        · simp
+    · split <;> rfl
+
+end Qx.C19
